@@ -407,7 +407,12 @@ pub struct World {
     pub caches: Vec<Option<crate::extras::CacheEntry>>,
     pub accs: Vec<Option<crate::extras::AccEntry>>,
     pub extra_counts: std::collections::BTreeMap<String, u64>,
-    pub first_read: Vec<(usize, u32)>,
+    pub last_paid_slot: usize,
+    pub paid_by_storage: std::collections::BTreeMap<usize, usize>,
+    pub reader_paid_slot: (usize, u32),
+    pub inflight_cache_uids: Vec<u32>,
+    pub inflight_acc: Vec<(u32, usize)>,
+    pub prog_wants_access: bool,
     pub gen_set: Vec<bool>,
 }
 
